@@ -346,7 +346,10 @@ def run(cx):
     # ------------------------------------------------------------------ R02e
     gets = [c for c in walk_local(parse) if isinstance(c, ast.Call) and call_name(c) == "get" and norm(c.func.value) == "self.parse_table"]
     ok = len(gets) == 1 and isinstance(gets[0].args[0], ast.Tuple) and [norm(x) for x in gets[0].args[0].elts] == ["cur_symbol", "next_token.name"]
-    cx.ob("R02e", gets[0] if gets else parse, ok, "lookup key is (symbol to expand, name of the next token)" if ok else "table lookup key differs from the writer's (symbol, token)")
+    subs = [n for n in walk_local(parse) if isinstance(n, ast.Subscript) and norm(n.value) == "self.parse_table"]
+    for sb in subs:
+        cx.ob("R02e", sb, False, "the table is a defaultdict: a subscript lookup of an empty cell inserts a permanent [] entry, so after one rejected text is_ambiguous() reports an LL(1) grammar as ambiguous (use a non-inserting .get)")
+    cx.ob("R02e", gets[0] if gets else parse, ok, "non-inserting lookup with key (symbol to expand, name of the next token)" if ok else "table lookup is not parse_table.get((symbol, next token name))")
     if gets:
         d = [norm(v) for _, v in assignments(parse, "cur_symbol") if v is not None]
         d2 = [norm(v) for _, v in assignments(parse, "next_token") if v is not None]
